@@ -102,6 +102,22 @@ def sib_add(ctx: Ctx) -> List[Ob]:
             ok = got == act
             obs.append(ctx.ob("SIB-ADD", ["C04"], f, f"position `{case}` -> {act}", None, ok,
                               "" if ok else f"got `{got}`: the new node does not land at the documented place"))
+        # `False` is an int: it must be normalised to "append" before the int case
+        from ..pat import has as _has, find as _find
+
+        ok = _has("if before is False:\n    before = None", f.node) or any(
+            isinstance(n_, ast.If) and norm(n_.test) == "before is False" and any(norm(x) == "before = None" for x in n_.body) for n_ in ast.walk(f.node))
+        obs.append(ctx.ob("SIB-ADD", ["C04"], f, "position `before is False` -> append (False is normalised before the int case)", None, ok,
+                          "" if ok else "isinstance(False, int) is true: before=False is inserted at index 0 although it is documented to append"))
+        # whole-tree argument: the top nodes are reversed only when they are inserted at a fixed index
+        revs = _find("$t.reverse()", f.node)
+        for rn, _e in revs:
+            g_ = ctx.model.parent_of(ctx.model.parent_of(rn))
+            t_ = norm(g_.test) if isinstance(g_, ast.If) else "?"
+            ok = isinstance(g_, ast.If) and "Node" not in t_ and "isinstance(before, int)" in t_.replace("(int,)", "int")
+            obs.append(ctx.ob("SIB-ADD", ["C07", "C04"], f, "add_child(tree, before=...): the top nodes are reversed only for a fixed index position", rn, ok,
+                              "" if ok else f"`{t_}`: inserting every node before the same *node* already keeps their order; reversing first "
+                              "adds them in reverse order (and before=False must not count as an index)"))
         extra = set(tb) - set(want)
         obs.append(ctx.ob("SIB-ADD", ["C04"], f, "no undocumented position case", None, not extra, "" if not extra else f"extra cases {sorted(extra)}"))
         # order of the cases: True before int (True is an int), int before node truthiness
@@ -364,7 +380,7 @@ def _mentions(e: Optional[ast.AST], texts: Set[str]) -> bool:
     return any(norm(x) in texts for x in ast.walk(e))
 
 
-@rule("COPY-ID", ["C07", "C05", "C02"], floor=3, section="3.5")
+@rule("COPY-ID", ["C07", "C05", "C02", "C08"], floor=3, section="3.5")
 def copy_id(ctx: Ctx) -> List[Ob]:
     """wherever a node is created from a source node's data, the source's data_id travels with it (an explicit id is not recomputed from hash(data)); typed copies carry the source's kind"""
     obs: List[Ob] = []
@@ -396,7 +412,7 @@ def copy_id(ctx: Ctx) -> List[Ob]:
                 r = env.reaching(f, c, a_id.id)
                 vals = r[0] if r is not None else [b.expr for b in env.scope(f).resolve(a_id.id)[1] if b.kind == "val"]
                 ok = any(_mentions(v, idtexts) for v in vals)
-            obs.append(ctx.ob("COPY-ID", ["C07", "C05", "C02"], f, f"copy of {s}.data carries {s}._data_id", c, ok,
+            obs.append(ctx.ob("COPY-ID", ["C07", "C05", "C02"] + (["C08"] if "_add_filtered" in f.qualname or f.name == "_add_from" else []), f, f"copy of {s}.data carries {s}._data_id", c, ok,
                               "" if ok else f"the copy of `{s}` gets data_id={norm(a_id) if a_id is not None else 'None'} -> recomputed by calc_data_id(data): "
                               "a node with an explicit data_id is copied under hash(data) and leaves its clone group"))
             # kind for typed code
